@@ -22,6 +22,8 @@ TraceNext ==
   \/ Is("Slice") /\ Slice(Ev.lenp, Ev.capp)
   \/ Is("FreeShared") /\ FreeWhileShared
   \/ Is("Status") /\ Status(Ev.driver_ok, Ev.reset)
+  \/ Is("RxPost") /\ RxPost
+  \/ Is("RxTake") /\ RxTake
 
 TraceSpec == TraceInit /\ [][TraceNext]_tvars
 
